@@ -420,6 +420,17 @@ pub fn gen40(tier: &str, r: &mut Rng, emit: &mut dyn FnMut(Vec<u64>)) {
         one(&p, 1, lim, emit);
         one(&p, 0, 0, emit);
     } }
+    // header token-length nibble different from the token's length (both are public): outside the exact-length
+    // clause, but the copies must stay inside their buffers all the same
+    for tl in [0usize, 1, 8, 12] { for nib in [0u8, 1, 7, 8, 15] { for pl in [0usize, 5] { for mode in [0u64, 2] {
+        let mut p = Packet::new();
+        p.set_token(r.bytes(tl));
+        p.header.set_token_length(nib);
+        if tl % 2 == 1 { p.add_option(CoapOption::UriPath, b"x".to_vec()); }
+        p.payload = r.bytes(pl);
+        one(&p, mode, 0, emit);
+        one(&p, 1, (4 + tl + pl) as u64, emit);
+    } } } }
     // over-long option values are refused, with and without limit
     for vl in [65803usize, 65804, 65805, 65806, 131341, 131342] { for mode in [0u64, 1, 2] {
         let mut p = Packet::new();
